@@ -451,6 +451,7 @@ func runCheck(id, tier string) int {
 	for _, d := range pc.DeadOK {
 		deadOK[d] = true
 	}
+	attempts := map[string]int{}
 	report := func(fn string, name string, text string, terms map[string]string, o *Oblig, query string) {
 		// known finding?
 		for _, k := range known {
@@ -469,7 +470,15 @@ func runCheck(id, tier string) int {
 		}
 		fmt.Fprintf(&sb, "verifier output: %s\n", text)
 		suffix := " no-failing-input-found"
-		if o != nil && query != "" {
+		attempts[fn]++
+		budget := 2
+		if len(templatesFor(fn)) > 0 {
+			budget = 4
+		}
+		if o != nil && query != "" && attempts[fn] > budget {
+			fmt.Fprintf(&sb, "counterexample search skipped: %d earlier failed obligations of this function were already searched in this run\n", budget)
+		}
+		if o != nil && query != "" && attempts[fn] <= budget {
 			if ok, rf := tryReplay(P, id, fn, *o, query, terms, solver, &sb); ok {
 				suffix = ""
 				fmt.Fprintf(&sb, "REPRODUCED on the real code; runnable replay: %s\n", rf)
